@@ -80,6 +80,16 @@ Theorem binds_are_the_bound_segments : forall pat segs,
 Proof. exact binds_raw. Qed.
 Print Assumptions binds_are_the_bound_segments.
 
+(* In general (a name possibly used twice in one pattern): every delivered pair is the
+   (name, segment) pair of some variable position, every variable name is delivered, and
+   no name is delivered twice. *)
+Theorem delivered_vars_are_bound_segments : forall pat segs, matches pat segs ->
+  (forall kv, In kv (binds pat segs) -> In kv (raw_binds pat segs)) /\
+  (forall k, In k (map fst (binds pat segs)) <-> In k (var_names pat)) /\
+  NoDup (map fst (binds pat segs)).
+Proof. exact L_binds_general. Qed.
+Print Assumptions delivered_vars_are_bound_segments.
+
 (* The complete case table of a response to a rooted path, for every map order:
    handler of a best route with its bindings; else 405 whose Allow lists exactly the OTHER
    methods that have a matching route, each once (or the custom not-allowed handler);
